@@ -143,7 +143,7 @@ def same_violation(res, prop, rule, sig=None):
                for v in res.get('violations') or [])
 
 
-def shrink(prop, batch, choices, vprop, rule, sig=None, max_runs=900, max_wall=float(os.environ.get("VERIF_SHRINK_WALL", "100"))):
+def shrink(prop, batch, choices, vprop, rule, sig=None, max_runs=900, max_wall=float(os.environ.get("VERIF_SHRINK_WALL", "180"))):
     """delta debugging on the choice list; 0 is the boring value"""
     t0 = time.monotonic()
     runs = [0]
